@@ -71,7 +71,7 @@ func NewSymbolTable(opts ...SymbolTableOption) *SymbolTableStruct {
 
 // Check if a given symbol exists.
 func (s *SymbolTableStruct) ExistsId(symbol Symbol) bool {
-	return symbol < Symbol(len(s.idTable)) && symbol > 0
+	return symbol < Symbol(len(s.idTable)) && symbol >= 0
 }
 
 // Check if a symbol with the given name exists.
